@@ -39,7 +39,7 @@ theorem evmCosting_spec (dest : Addr) (cost refundAdd : Nat) (m : Msg) (hd : des
   untouched := by
     intro w r g; unfold evmCosting; simp only
     split
-    · intro _; exact ⟨rfl, rfl⟩
+    · intro _; exact ⟨rfl, rfl, rfl⟩
     · intro h; simp at h
   nonce := by
     intro w r g; unfold evmCosting; simp only
